@@ -404,8 +404,18 @@ func genCase(t *rapid.T) Case {
 		inner := &sg.Node{Kind: "choice", Name: "gn-inner", Kids: []*sg.Node{
 			{Kind: "case", Name: "gn-cp", Kids: []*sg.Node{ol("gn-p"), ml("gn-pm")}},
 			{Kind: "case", Name: "gn-cq", Kids: []*sg.Node{ol("gn-q")}}}}
+		cx := []*sg.Node{ol("gn-xa"), ml("gn-xm"), inner}
+		if g.Bool("secondnested") {
+			// a second and a third choice in the same case: which nested choice a node belongs to is asked of each of them
+			cx = append(cx, &sg.Node{Kind: "choice", Name: "gn-inner2", Kids: []*sg.Node{
+				{Kind: "case", Name: "gn-c2p", Kids: []*sg.Node{ol("gn-p2"), ml("gn-p2m")}},
+				{Kind: "case", Name: "gn-c2q", Kids: []*sg.Node{ol("gn-q2")}}}},
+				&sg.Node{Kind: "choice", Name: "gn-inner3", Kids: []*sg.Node{
+					{Kind: "case", Name: "gn-c3p", Kids: []*sg.Node{{Kind: "leaf-list", Name: "gn-p3", Type: str(), Min: "1"}, {Kind: "container", Name: "gn-c3c", Kids: []*sg.Node{ml("gn-p3m")}}}},
+					{Kind: "case", Name: "gn-c3q", Kids: []*sg.Node{ol("gn-q3")}}}})
+		}
 		box := &sg.Node{Kind: "container", Name: "gn-box", Kids: []*sg.Node{{Kind: "choice", Name: "gn-outer", Kids: []*sg.Node{
-			{Kind: "case", Name: "gn-cx", Kids: []*sg.Node{ol("gn-xa"), ml("gn-xm"), inner}},
+			{Kind: "case", Name: "gn-cx", Kids: cx},
 			{Kind: "case", Name: "gn-cy", Kids: []*sg.Node{ol("gn-y")}}}}}}
 		top := c.Mods[0].Nodes[0]
 		top.Kids = append([]*sg.Node{box}, top.Kids...)
